@@ -1,10 +1,12 @@
 """C09 - answers do not depend on what was computed before (stateful)."""
 from __future__ import annotations
 import math
-from hypothesis import strategies as st
+import os
+from hypothesis import given, strategies as st
 from hypothesis.stateful import RuleBasedStateMachine, rule, precondition, initialize
 from harness import strategies as S
 from harness import history as H
+from harness import redex as RX
 from .common import *
 
 ID = "C09"
@@ -18,7 +20,10 @@ RULE = ("Hypothesis RuleBasedStateMachine histories (10-40 steps) over a pool of
         "object: a fresh object replaying only compute_early and whether as_expression() was called) must give the "
         "bit-identical number, the same exception class, or an == expression with equal repr.  Non-trivial = a history in "
         "which an expression sharing nodes with another was queried at a different point than before, or an operation "
-        "followed a failed call, or an evaluation followed a simplification; distinct by SHA-1 of the history.")
+        "followed a failed call, or an evaluation followed a simplification; distinct by SHA-1 of the history.  Part 'order' "
+        "(process-global state): a list of operations on freshly built expressions, among them one-change siblings with "
+        "hash-colliding constants (-1 / -2), runs in order here and in reverse order in a separate process with the same "
+        "hash seed; answers must be identical byte for byte.")
 ASSUMPTIONS = [
     "same code + same arithmetic on a fresh copy is the model: numbers must be bit-identical",
     "a late derivative object is compared with a fresh object that replays its route-determining history "
@@ -255,15 +260,109 @@ def make_soak(stats):
     return C09Soak
 
 
+# ---------------------------------------------------------------------------------------------
+# 'order' part: history kept in PROCESS-GLOBAL state.  The never-used copy of the stateful parts is replayed in the same
+# process, so a module-level memo (say, keyed by a hash that collides) fools both sides alike.  Here a list of
+# operations, each on a freshly built expression, runs in order in this process and in REVERSE order in a separate
+# process with the same PYTHONHASHSEED: answers on fresh objects may not depend on what the process did before.
+
+_order_worker = {}
+
+
+def order_worker():
+    import subprocess
+    import sys
+    key = os.getpid()
+    if key not in _order_worker:
+        env = dict(os.environ)
+        env["PYTHONHASHSEED"] = os.environ.get("PYTHONHASHSEED", "0")
+        _order_worker[key] = subprocess.Popen([sys.executable, "-B", "-m", "harness.c09worker"], stdin=subprocess.PIPE,
+                                              stdout=subprocess.PIPE, stderr=subprocess.DEVNULL, env=env,
+                                              cwd=os.path.dirname(os.path.dirname(os.path.dirname(os.path.abspath(__file__)))),
+                                              text=True, bufsize=1)
+    return _order_worker[key]
+
+
+def check_order(stats, ops, sub="order"):
+    import json
+    from harness import c09worker
+    stats.case()
+    ops = [dict(op, model=M.to_json(safe(M.from_json(op["model"])))) for op in ops]
+    w = order_worker()
+    w.stdin.write(json.dumps(list(reversed(ops))) + "\n")
+    w.stdin.flush()
+    mine = c09worker.run_ops(ops)
+    line = w.stdout.readline()
+    if not line:
+        _order_worker.pop(os.getpid(), None)
+        raise HarnessError("C09 order worker died")
+    ans = json.loads(line)
+    if "error" in ans:
+        raise HarnessError(f"C09 order worker failed: {ans['error']} {ans.get('trace', '')}")
+    theirs = list(reversed(ans["ok"]))
+    for k, (a, b) in enumerate(zip(mine, theirs)):
+        stats.count("op:order:" + ops[k]["op"])
+        if a != b:
+            case = make_case(sub, None, None, ops=ops)
+            raise violation(ID, sub, f"order:{ops[k]['op']}", case,
+                            f"{ops[k]['op']} on a freshly built {M.text(M.from_json(ops[k]['model']))[:250]} (operation {k + 1} of {len(ops)}): "
+                            f"after the earlier operations of the list this process answers {a[:300]}, a process that ran the "
+                            f"list in reverse order answers {b[:300]} (same hash seed; every operation builds its own objects)")
+    canon = [M.canon(M.from_json(op["model"])) for op in ops]
+    if len(set(map(repr, canon))) >= 2:
+        stats.nontrivial_case(M.digest([repr(c) for c in canon], [op["op"] for op in ops]),
+                              {"operations": [f"{op['op']} {M.text(M.from_json(op['model']))[:120]}" for op in ops[:5]]})
+
+
+def make_order(stats):
+    from harness import c09worker
+    from harness import mutate_model as MM
+
+    @given(st.data())
+    def test(data):
+        names = ["x", "y"]
+        base = data.draw(st.one_of(S.expressions(names, depth=2), RX.templates(names).map(lambda t: t[1])))
+        # colliding constants by construction: hash(-1) == hash(-2) in CPython
+        if data.draw(st.booleans()):
+            c = ("Constant", data.draw(st.sampled_from([-1, -2, -1.0, -2.0])))
+            base = data.draw(st.sampled_from([("Multiply", (c, base)), ("Add", (base, c)), ("Power", base, c), ("Exponential", ("Multiply", (c, base)), 2)]))
+        models = [base]
+        for _ in range(data.draw(st.integers(1, 4))):
+            src = data.draw(st.sampled_from(models))
+            sib = data.draw(MM.sibling(src, names))
+            models.append(sib[1] if sib else data.draw(S.expressions(names, depth=2)))
+        # every Constant(-1) <-> Constant(-2) swap of the base as well
+        def swap(x):
+            if x[0] == "Constant" and x[1] in (-1, -2):
+                return ("Constant", MM.COLLIDE[int(x[1])])
+            if x[0] in M.LEAVES:
+                return x
+            return M.with_children(x, [swap(c) for c in M.children(x)])
+        if data.draw(st.booleans()):
+            models.insert(data.draw(st.integers(0, len(models))), swap(base))
+        point = data.draw(S.points(names, extra=False))
+        ops = []
+        for m in models:
+            for _ in range(data.draw(st.integers(1, 2))):
+                ops.append({"op": data.draw(st.sampled_from(c09worker.OPS)), "model": M.to_json(m), "var": data.draw(st.sampled_from(names)),
+                            "point": [[k, M.num_to_json(v)] for k, v in point.items()]})
+        check_order(stats, ops)
+    return test
+
+
 def parts(tier):
     n = 1500 if tier == "quick" else 30000
     return [machine_part("histories", make_machine, n, steps=30),
             machine_part("long-histories", make_machine, max(16, n // 10), steps=80),
             machine_part("soak", make_soak, 48 if tier == "quick" else 480, steps=250),
-            machine_part("budget", make_budget, 48 if tier == "quick" else 320, steps=6)]
+            machine_part("budget", make_budget, 48 if tier == "quick" else 320, steps=6),
+            hyp_part("order", make_order, 1600 if tier == "quick" else 30000)]
 
 
 def replay(case):
+    if case.get("sub") == "order":
+        check_order(Stats(), case["ops"])
+        return
     try:
         H.replay_history("c09", case["history"])
     except H.Mismatch as mm:
